@@ -86,7 +86,7 @@ class C17(Prop):
         return [p for p in parts if p[0] in ('CONST', 'ERR') or (p[0] == 'IMPL' and 'cmp : : Eq' in p[1])]
 
     def oracle(self, tier, rng, suspicious):
-        results = R.run_cases(self.cases(tier, rng))
+        results = self.l1_results or R.run_cases(self.cases(tier, rng))
         mods = []
         for r in results:
             head = ('#[::derive_ex::derive_ex(%s)]\n' % r.attr) if r.mode == 'A' else '#[derive(::derive_ex::Ex)]\n'
